@@ -455,8 +455,10 @@ class HTTP1Connection(httputil.HTTPConnection):
             headers["Transfer-Encoding"] = "chunked"
         if not self.is_client and (
             self._request_start_line.method == "HEAD"
-            or cast(httputil.ResponseStartLine, start_line).code == 304
+            or cast(httputil.ResponseStartLine, start_line).code in (204, 304)
+            or 100 <= cast(httputil.ResponseStartLine, start_line).code < 200
         ):
+            # These responses never have a body; refuse attempts to write one.
             self._expected_content_remaining = 0
         elif "Content-Length" in headers:
             self._expected_content_remaining = parse_int(headers["Content-Length"])
